@@ -26,6 +26,9 @@ CHECKS = {
     "C13": dict(cat="other", tech="symbolic execution of the sparse assembler and GridFunction routines on free geometry; identities under a symbolic quadrature rule with moment hypotheses decided in LRA after sound monomial abstraction (z3/cvc5)",
                 text="Bounded symbolic verification: identity matrices (DP0/P1/DP1/RWG/SNC pairs, with segments) and Laplace-Beltrami equal the closed-form exact integrals for EVERY quadrature rule satisfying the moment equations of the needed degree; integrate, evaluate_on_element_centers, evaluate_on_vertices, projections and MultiplicationOperator equal a harness-written direct quadrature for all coefficients and geometry values, on meshes of <= 6 elements.",
                 ref="3/C13"),
+    "C14": dict(cat="other", tech="symbolic execution of the operator-algebra classes on symbolic matrices / scalars / vectors for enumerated expression trees (programs); polynomial identities decided by z3/cvc5; exact-rational LAPACK contract stub for the mass solve",
+                text="Bounded symbolic verification over programs: every well-typed expression tree of depth 1 over 4 leaf operators (dense, sparse, generic; real and complex) and 8 operations, and a seeded sample of depth-2 trees (all of them in the thorough tier), evaluates - via to_dense, matvec, matmat, application to grid functions and strong_form - to the matrix expression for ALL matrix entries, scalars and vectors; ill-typed trees must raise; likewise potential-operator sums/scalings, 2x2 blocked operators and grid-function arithmetic. Two genuine defects were repaired.",
+                ref="3/C14"),
     "C16": dict(cat="other", tech="two-symbolic-iteration execution of every prange loop (index inputs as uninterpreted functions, shared arrays recording accesses) with LIA+UF conflict queries; path exploration of the colouring code over a symbolic local2global table (z3/cvc5)",
                 text="Bounded symbolic verification of race freedom: for all 21 parallel functions found by AST scan, no two iterations (unbounded iteration numbers / element indices) access the same cell with a write - for the regular assemblers under the colouring invariant, which is itself decided for every local2global table of 3 elements x 2 (3) local dofs; constructors are swept concretely (auxiliary). Bitwise thread-count independence then follows because each iteration is sequential and deterministic.",
                 ref="3/C16"),
